@@ -9,7 +9,7 @@
    same server (ghost event GDupSub, `clean`).  Plus function-level theorems for every world (content of the messages).
    NOT proved: the refresh bound in time; judged on every run by check_C14 on implementation traces. *)
 From PS Require Import Lib.Base Generated.Consts Model.SdTypes Model.Config Model.Session Model.StackTypes Model.Stack
-  Proofs.StackOpsProofs Model.StackIO Spec.TraceSpec Proofs.MirrorLog Proofs.WorldMirror.
+  Proofs.StackOpsProofs Model.StackIO Spec.TraceSpec Proofs.MirrorLog Proofs.WorldMirror Model.Skel Generated.LogicGen Proofs.GenSkel.
 
 (* every scenario of subscriber calls, every schedule: at idle the ideal server holds exactly what is requested *)
 Theorem C14_requests_mirrored_when_idle : forall sc, sub_scenario sc ->
@@ -25,6 +25,22 @@ Proof. exact requests_mirrored_in_every_state. Qed.
 (* the invariant behind both is kept by the callback of every handle of such a run *)
 Theorem C14_mirror_kept_by_every_callback : forall h w, MIx [h] w -> MI (exec h w).
 Proof. exact MI_exec. Qed.
+
+(* what the subscribe / stop-subscribe calls record and defer, and what the deferred transmissions send, is the control flow
+   translated from the source text of sd.py on every run (Generated/LogicGen.v) *)
+Theorem C14_subscribe_call_is_the_translated_source : forall g ep w,
+  fold_left (run_sact g ep) (gen_sub_subscribe (sub_alive w)) (Some w) = Some (subscribe_core g ep w).
+Proof. exact subscribe_eventgroup_is_the_translated_source. Qed.
+Theorem C14_stop_subscribe_call_is_the_translated_source : forall g ep send w,
+  let found := match remove_first sub_entry_eqb (g, ep) (sub_entries w) with Some _ => true | None => false end in
+  fold_left (run_sact g ep) (gen_sub_stop_subscribe found send) (Some w) = Some (stop_subscribe_eventgroup g ep send w).
+Proof. exact stop_subscribe_eventgroup_is_the_translated_source. Qed.
+Theorem C14_deferred_transmissions_are_the_translated_source : forall ep gs w,
+  exec (HSendStartSub ep gs) w
+    = send_sd (gen_sub_entries (fun g ttl => create_subscribe_entry g ttl 0) (gen_sub_start_ttl (t_subscribe_ttl (cfg w))) gs) (Some ep) w
+  /\ exec (HSendStopSub ep gs) w
+    = send_sd (gen_sub_entries (fun g ttl => create_subscribe_entry g ttl 0) (gen_sub_stop_ttl (t_subscribe_ttl (cfg w))) gs) (Some ep) w.
+Proof. exact send_start_stop_are_the_translated_source. Qed.
 
 (* non-vacuity: start, subscribe two eventgroups with one server, stop-subscribe the first, let the loop run - the run is
    inside the domain, idle, and the server holds the second eventgroup only; after stop it holds nothing *)
@@ -72,6 +88,9 @@ Print Assumptions C14_requests_mirrored_when_idle.
 Print Assumptions C14_requests_mirrored_in_every_state.
 Print Assumptions C14_mirror_kept_by_every_callback.
 Print Assumptions C14_mirror_example.
+Print Assumptions C14_subscribe_call_is_the_translated_source.
+Print Assumptions C14_stop_subscribe_call_is_the_translated_source.
+Print Assumptions C14_deferred_transmissions_are_the_translated_source.
 Print Assumptions C14_message_content.
 Print Assumptions C14_entry_content.
 Print Assumptions C14_subscribe_while_alive.
